@@ -197,10 +197,22 @@ class World:
                 self.live.append({"obj": r[1], "slot": slot, "expect": a[1]})
         elif op == "dump" and self.live:
             ent = rng.choice(self.live)
+            etop = ent["slot"]["case"]["top"]
             try:
-                ent["obj"].dumps()
+                d = ent["obj"].dumps()
             except Exception:  # noqa: BLE001
-                pass
+                return
+            # what an instance dumps is its value under the *current* configuration of its cstruct object, whatever
+            # was dumped before (by this or another instance, under this or another byte order)
+            if not gen.has_union(etop) and not model.has_nan(ent["expect"]):
+                try:
+                    want, mask = model.dump(etop, ent["expect"], self.cfg(ent["slot"]))
+                except Exception:  # noqa: BLE001
+                    return
+                ctx.event("dumps_compared_with_model")
+                if len(d) != len(want) or engine.bits_differ(d, want, mask):
+                    ctx.violation("history", "dump-depends-on-history",
+                                  self.detail(ent["slot"], got=d, want=want, value=ent["expect"]))
         elif op == "failparse":
             try:
                 inp = engine.model_input(case, cfg, rng, tail=0)[0]
